@@ -12,6 +12,13 @@ import NeoModel.Proofs.CodecScript
 import NeoModel.Proofs.CodecFixed
 import NeoModel.Proofs.CodecMsScript
 import NeoModel.Proofs.CodecSig
+import NeoModel.Proofs.CodecMsCanon
+import NeoModel.Proofs.CodecBase58Inv
+import NeoModel.Proofs.CodecPubKey
+import NeoModel.Proofs.CodecNep2
+import NeoModel.Proofs.CodecFixedInv
+import NeoModel.Proofs.CodecUintInv
+import NeoModel.Proofs.CodecConsts
 namespace NeoModel.Codec
 variable {Sig Key : Type}
 
@@ -144,6 +151,19 @@ theorem uint_wrong_length (size : Nat) (b : Bytes) (h : b.length ≠ size) :
 example : uStringLE [0x01, 0x02, 0xab] = [97, 98, 48, 50, 48, 49] /- "ab0201" -/ ∧
     uDecodeStringLE 3 [97, 98, 48, 50, 48, 49] = some [0x01, 0x02, 0xab] := by decide
 
+/-- C18 (160/256-bit integers, converse): the string decoders accept exactly the hex strings of
+`2·size` digits (either letter case); what they return prints back to the lower-cased input, so
+on lower-case strings print∘parse is the identity too. -/
+theorem uint_string_accepts_iff (size : Nat) (s u : Bytes) :
+    (uDecodeStringBE size s = some u ↔ s.length = size * 2 ∧ hexDecB s = some u) ∧
+    (uDecodeStringLE size s = some u ↔ s.length = size * 2 ∧ hexDecB s = some u.reverse) ∧
+    (uDecodeStringBE size s = some u → uStringBE u = s.map lowerHex ∧ u.length = size) ∧
+    (uDecodeStringLE size s = some u → uStringLE u = s.map lowerHex ∧ u.length = size) :=
+  ⟨(uDecodeString_iff size s u).1, (uDecodeString_iff size s u).2, (uString_decode size s u).1, (uString_decode size s u).2⟩
+
+example : uDecodeStringBE 2 [65, 98, 48, 49] /- "Ab01" -/ = some [0xab, 0x01] ∧
+    uStringBE [0xab, 0x01] = [97, 98, 48, 49] /- "ab01" -/ := by decide
+
 /-! ## Base58, Base58Check, address, WIF -/
 
 /-- C18 (Base58): decoding the encoding gives the bytes back, leading zero bytes included
@@ -176,6 +196,51 @@ theorem wif_decode_encode (H : Bytes → Bytes) (hH : ∀ x, 4 ≤ (H x).length)
 -- non-vacuity of the hash hypothesis and of the key-length guard
 example : ∀ x : Bytes, 4 ≤ ((fun _ => List.replicate 32 (0 : UInt8)) x).length := by intro x; simp
 example (H : Bytes → Bytes) : wifEncode H [1, 2, 3] 0 true = none := by simp [wifEncode]
+
+/-! ### the converse direction: only encodings are accepted -/
+
+/-- C18 (Base58): `Encode (Decode s) = s` for EVERY string `Decode` accepts (any length, leading
+'1's included), and `Decode` rejects exactly the empty string and strings with a byte outside the
+alphabet. Together with `base58_decode_encode`: a bijection between non-empty byte strings and
+non-empty alphabet strings. -/
+theorem base58_encode_decode (s : Bytes) :
+    (∀ b, b58Decode s = some b → b58Encode b = s) ∧
+    (b58Decode s = none ↔ s = [] ∨ ∃ c ∈ s, b58Digit c = none) :=
+  ⟨fun b h => b58Encode_decode s b h, b58Decode_none_iff s⟩
+
+example : b58Decode (b58Encode [0, 0, 1, 2, 3]) = some [0, 0, 1, 2, 3] ∧
+    b58Encode [0, 0, 1, 2, 3] = b58Encode [0, 0, 1, 2, 3] :=
+  ⟨base58_decode_encode _ (by simp), (base58_encode_decode _).1 _ (base58_decode_encode _ (by simp))⟩
+example : b58Decode [0x30] = none /- "0" is not in the alphabet -/ :=
+  (base58_encode_decode [0x30]).2.mpr (Or.inr ⟨0x30, by simp, by decide⟩)
+
+/-- C18 (Base58, leading zeros): `z` leading zero bytes become exactly `z` leading '1's and the
+rest of the string (which does not start with '1') does not depend on them. -/
+theorem base58_leading_zeros (z : Nat) (b : Bytes) (hb : b.head? ≠ some 0) :
+    b58Encode (List.replicate z 0 ++ b) = List.replicate z 0x31 ++ b58Encode b ∧ (b58Encode b).head? ≠ some 0x31 :=
+  b58Encode_leading_zeros z b hb
+
+/-- C18 (Base58Check): `CheckDecode` accepts exactly the `CheckEncode` images of non-empty payloads;
+a wrong checksum, fewer than 5 bytes, a foreign character: rejected. -/
+theorem base58check_accepts_iff (H : Bytes → Bytes) (hH : ∀ x, 4 ≤ (H x).length) (s p : Bytes) :
+    checkDecode H s = some p ↔ p ≠ [] ∧ s = checkEncode H p := checkDecode_iff H hH s p
+
+/-- C18 (addresses): `StringToUint160` accepts exactly the `Uint160ToString` images of 20-byte
+values (so both directions of the address ↔ script-hash round trip hold, version byte included). -/
+theorem address_accepts_iff (H : Bytes → Bytes) (hH : ∀ x, 4 ≤ (H x).length) (s u : Bytes) :
+    stringToUint160 H s = some u ↔ u.length = 20 ∧ s = uint160ToString H u := address_iff H hH s u
+
+/-- C18 (WIF): `WIFDecode` accepts exactly the `WIFEncode` images of 32-byte keys under the same
+version: layout `version | key (32) | [0x01] | checksum (4)` under Base58Check; another version
+byte, another length, another flag byte or a wrong checksum is rejected. -/
+theorem wif_accepts_iff (H : Bytes → Bytes) (hH : ∀ x, 4 ≤ (H x).length) (s key : Bytes) (version : UInt8) (c : Bool) :
+    wifDecode H s version = some (key, c) ↔ key.length = 32 ∧ wifEncode H key version c = some s :=
+  wif_iff H hH s key version c
+
+-- the layout itself
+example (H : Bytes → Bytes) (key : Bytes) (hk : key.length = 32) :
+    wifEncode H key 0 true = some (b58Encode ((0x80 :: key ++ [0x01]) ++ (H (0x80 :: key ++ [0x01])).take 4)) := by
+  simp [wifEncode, hk, checkEncode, checksum]
 
 /-! ## integer pushes (pkg/vm/emit, scparser) -/
 
@@ -219,6 +284,48 @@ theorem decimal_too_many_digits_rejected (P0 p1 : Bytes) (p : Nat) (z : Int)
 example : decFromString ([49] ++ chDot :: [49, 50, 51]) 2 = none :=   -- "1.123" with precision 2
   decimal_too_many_digits_rejected [49] [49, 50, 51] 2 1 (by decide) (by decide) (by decide)
 
+/-- C18 (decimals, accepted language): `FromString` accepts exactly `[+-]?digits`, optionally
+followed by `.` and `[+-]?digits` of at most `precision` characters, and returns
+`int·10^p ± frac·10^(p − len(fraction text))` (`−` iff the text starts with `-`). -/
+theorem decimal_accepts_iff (s : Bytes) (p : Nat) (v : Int) :
+    decFromString s p = some v ↔
+      ((∀ c ∈ s, (c == chDot) = false) ∧ ∃ z, parseInt10 s = some z ∧ v = z * (10:Int) ^ p) ∨
+      (∃ P0 p1 z f, s = P0 ++ chDot :: p1 ∧ (∀ c ∈ P0, (c == chDot) = false) ∧ parseInt10 P0 = some z ∧
+        p1.length ≤ p ∧ parseInt10 p1 = some f ∧
+        v = (if P0.head? == some chMinus then z * (10:Int) ^ p - f * (10:Int) ^ (p - p1.length)
+             else z * (10:Int) ^ p + f * (10:Int) ^ (p - p1.length))) := decFromString_iff s p v
+
+/-- C18 (decimals, the accepted quirks, exactly): a signed fraction is accepted and its sign
+character counts as a digit position, in the length test and in the scale; an empty integer or
+fraction part is rejected. These strings are never printed by `ToString`, so they do not affect
+`decimal_roundtrip`; they make parse∘print (string → value → string) non-injective. -/
+theorem decimal_quirks (P0 d s : Bytes) (p : Nat) (z : Int) (hnd : ∀ c ∈ P0, (c == chDot) = false)
+    (hz : parseInt10 P0 = some z) (hm : (P0.head? == some chMinus) = false)
+    (hne : d ≠ []) (hd : ∀ c ∈ d, isDigit c = true) :
+    (d.length + 1 ≤ p → decFromString (P0 ++ chDot :: chMinus :: d) p
+        = some (z * (10:Int) ^ p + (-((decVal d : Nat) : Int)) * (10:Int) ^ (p - (d.length + 1)))) ∧
+    (d.length + 1 ≤ p → decFromString (P0 ++ chDot :: chPlus :: d) p
+        = some (z * (10:Int) ^ p + ((decVal d : Nat) : Int) * (10:Int) ^ (p - (d.length + 1)))) ∧
+    (p < d.length + 1 → decFromString (P0 ++ chDot :: chMinus :: d) p = none) ∧
+    decFromString (chDot :: s) p = none ∧ decFromString (s ++ [chDot]) p = none :=
+  ⟨(dec_signed_fraction P0 d p z hnd hz hm hne hd).1, (dec_signed_fraction P0 d p z hnd hz hm hne hd).2.1,
+   (dec_signed_fraction P0 d p z hnd hz hm hne hd).2.2, (dec_empty_parts s p).1, (dec_empty_parts s p).2⟩
+
+-- "1.-5" at precision 2 is 1·100 − 5·10^(2−2) = 95, i.e. 0.95 (not 0.5), and is rejected at precision 1;
+-- "1.+5" at precision 2 is 1.05, not 1.5; the unsigned "1.5" is 1.50
+example : decFromString [49, 46, 45, 53] 2 = some 95 ∧ decFromString [49, 46, 45, 53] 1 = none ∧
+    decFromString [49, 46, 43, 53] 2 = some 105 ∧ decFromString [49, 46, 53] 2 = some 150 := by decide
+
+/-- C18 (Fixed8, out-of-range text): `Fixed8FromString` never fails on range; it returns the parsed
+decimal wrapped to int64 (the int64 congruent to it modulo 2^64). -/
+theorem fixed8_parse_wraps (s : Bytes) (w : Int) :
+    (fixed8FromString s = some w ↔ ∃ v, decFromString s 8 = some v ∧ w = wrapInt64 v) ∧
+    (∀ x : Int, -(2:Int)^63 ≤ wrapInt64 x ∧ wrapInt64 x < (2:Int)^63 ∧ (wrapInt64 x - x) % (2:Int)^64 = 0) :=
+  ⟨fixed8FromString_iff s w, wrapInt64_spec⟩
+
+-- "92233720368.54775808" (= 2^63 · 10^-8) parses to −2^63
+example : fixed8FromString [57,50,50,51,51,55,50,48,51,54,56,46,53,52,55,55,53,56,48,56] = some (-(2:Int)^63) := by decide
+
 /-! ## standard contracts: builders and their parsers -/
 
 /-- C18 (scripts): `ParseMultiSigContract (CreateMultiSigRedeemScript m keys) = (m, keys)` for every
@@ -239,6 +346,245 @@ example : ∃ s, createMultiSig 2 [List.replicate 33 1, List.replicate 33 2, Lis
 -- … and the builder's guards
 example : createMultiSig 0 [List.replicate 33 1] = none ∧ createMultiSig 2 [List.replicate 33 1] = none := by
   constructor <;> simp [createMultiSig]
+
+/-! ## standard contracts: the builder with its sort, the parsers characterised exactly -/
+
+/-- C18 (scripts): `PublicKey.Cmp` orders keys "infinity first, then X, then Y" (big integers), and
+the sort inside `CreateMultiSigRedeemScript` returns a sorted permutation of its input. -/
+theorem multisig_sort_spec (ks : List PubKey) :
+    (sortKeys ks).Perm ks ∧ (sortKeys ks).Pairwise (fun a b => pkLe a b = true) ∧
+    (∀ x1 y1 x2 y2, pkLe (some (x1, y1)) (some (x2, y2)) = true ↔ (x1 < x2 ∨ (x1 = x2 ∧ y1 ≤ y2))) ∧
+    (∀ a b, pkLe a b = true → pkLe b a = true → a = b) :=
+  ⟨sortKeys_perm ks, sortKeys_sorted ks, fun x1 y1 x2 y2 => pkLe_iff (some (x1, y1)) (some (x2, y2)), pkLe_antisymm⟩
+
+-- equal X / different Y, a duplicate and the infinity key
+example : sortKeys [some (7, 4), none, some (3, 9), some (7, 2), some (7, 4)]
+    = [none, some (3, 9), some (7, 2), some (7, 4), some (7, 4)] := by decide
+
+/-- C18 (scripts): the redeem script (with the in-place sort modelled) does not depend on the order
+in which the keys are passed: any permutation of the key list gives the same script, hence the
+same script hash and address for every hash function. -/
+theorem multisig_script_perm_invariant (m : Int) (ks ks' : List PubKey) (h : ks.Perm ks') :
+    createMultiSigK m ks = createMultiSigK m ks' ∧
+    ∀ (H160 H : Bytes → Bytes), (createMultiSigK m ks).map (fun s => uint160ToString H (H160 s))
+      = (createMultiSigK m ks').map (fun s => uint160ToString H (H160 s)) := by
+  have := createMultiSigK_perm m ks ks' h
+  exact ⟨this, fun _ _ => by rw [this]⟩
+
+example : createMultiSigK 2 [some (7, 4), some (3, 9), some (7, 2)] = createMultiSigK 2 [some (7, 2), some (7, 4), some (3, 9)] :=
+  (multisig_script_perm_invariant 2 _ _ (by decide)).1
+example : (createMultiSigK 2 [some (7, 4), some (3, 9), some (7, 2)]).isSome = true := by decide
+
+/-- C18 (scripts): `ParseMultiSigContract (CreateMultiSigRedeemScript m keys) = (m, sorted keys)`
+for every `1 ≤ m ≤ n ≤ 1024` and every list of (non-infinity) keys, in whatever order, duplicates
+and equal-X keys included. -/
+theorem multisig_script_parse_build_sorted (m : Nat) (keys : List PubKey) (h1 : 1 ≤ m) (h2 : m ≤ keys.length)
+    (h3 : keys.length ≤ 1024) (hinf : ∀ k ∈ keys, k ≠ none) :
+    ∃ s, createMultiSigK (m : Int) keys = some s ∧ parseMultiSig s = some (m, (sortKeys keys).map pkBytes) :=
+  parse_createK m keys h1 h2 h3 hinf
+
+example : ∃ s, createMultiSigK 2 [some (7, 4), some (3, 9), some (7, 2)] = some s ∧
+    parseMultiSig s = some (2, [pkBytes (some (3, 9)), pkBytes (some (7, 2)), pkBytes (some (7, 4))]) :=
+  multisig_script_parse_build_sorted 2 _ (by decide) (by decide) (by decide) (by decide)
+
+/-- C18 (scripts): the script determines `m` and the sorted list of compressed keys: two key lists
+give the same script iff (for keys on one curve, where X and the parity fix the key) they are the
+same multiset of keys and `m` is the same. -/
+theorem multisig_script_determines (m m' : Nat) (ks ks' : List PubKey) (s : Bytes)
+    (h1 : 1 ≤ m) (h2 : m ≤ ks.length) (h3 : ks.length ≤ 1024) (hinf : ∀ k ∈ ks, k ≠ none)
+    (h1' : 1 ≤ m') (h2' : m' ≤ ks'.length) (h3' : ks'.length ≤ 1024) (hinf' : ∀ k ∈ ks', k ≠ none)
+    (hs : createMultiSigK (m : Int) ks = some s) (hs' : createMultiSigK (m' : Int) ks' = some s) :
+    m = m' ∧ (sortKeys ks).map pkBytes = (sortKeys ks').map pkBytes := by
+  obtain ⟨t, ht, hp⟩ := parse_createK m ks h1 h2 h3 hinf
+  obtain ⟨t', ht', hp'⟩ := parse_createK m' ks' h1' h2' h3' hinf'
+  rw [hs] at ht; rw [hs'] at ht'
+  injection ht with ht; injection ht' with ht'
+  subst ht; rw [← ht', hp] at hp'
+  injection hp' with hp'
+  injection hp' with e1 e2
+  exact ⟨e1, e2⟩
+
+/-- C18 (scripts), exact characterisation of what `ParseMultiSigContract` / `IsMultiSigContract`
+accept: a script is accepted with result `(m, pubs)` iff `1 ≤ m ≤ n ≤ 1024`, every key push carries
+33..255 bytes (the parser only rejects shorter ones and does not look inside), and the script is
+`a ++ PUSHDATA1-pushes of pubs ++ c ++ SYSCALL CheckMultisig` (implicit RET only) where `a` and `c`
+are among the listed encodings of `m` and `n`: PUSH1..PUSH16 (n ≤ 16), PUSHINT8 (n ≤ 127),
+PUSHINT16/32/64 and PUSHINT128/256 zero-extended (5 to 7 encodings per count). -/
+theorem multisig_parse_accepts_iff (s : Bytes) (m : Nat) (pubs : List Bytes) :
+    parseMultiSig s = some (m, pubs) ↔
+      1 ≤ m ∧ m ≤ pubs.length ∧ pubs.length ≤ 1024 ∧ (∀ k ∈ pubs, 33 ≤ k.length ∧ k.length ≤ 255) ∧
+      ∃ a ∈ countEncodings m, ∃ c ∈ countEncodings pubs.length, s = msScript a pubs c :=
+  parseMultiSig_iff' s m pubs
+
+/-- C18 (scripts): among the accepted scripts the images of the builder are exactly those whose two
+count pushes are the ones `emit.Int` writes (PUSH1..PUSH15, PUSHINT8 for 16..127, PUSHINT16 above);
+every other listed encoding (PUSH16, over-wide PUSHINT*, the PUSHINT128/256 forms of the known
+finding C07 calc-vs-vm-noncanonical-script) is accepted by the parser but never produced. -/
+theorem multisig_noncanonical_exact (m : Nat) (pubs : List Bytes) (a c : Bytes)
+    (h1 : 1 ≤ m) (h2 : m ≤ pubs.length) (h3 : pubs.length ≤ 1024) (hk : ∀ k ∈ pubs, 33 ≤ k.length ∧ k.length ≤ 255)
+    (ha : a ∈ countEncodings m) (hc : c ∈ countEncodings pubs.length) :
+    parseMultiSig (msScript a pubs c) = some (m, pubs) ∧
+    (createMultiSig (m : Int) pubs = some (msScript a pubs c) ↔ a = canonCount m ∧ c = canonCount pubs.length) := by
+  refine ⟨parseMultiSig_of_shape m pubs a c h1 h2 h3 hk ha hc, ?_⟩
+  rw [createMultiSig_eq m pubs h1 h2 h3 (fun k hk' => (hk k hk').2)]
+  constructor
+  · intro h
+    injection h with h
+    have := msScript_unique m pubs h1 (by omega) _ _ _ _ (canonCount_mem m) ha (canonCount_mem _) hc h
+    exact ⟨this.1.symm, this.2.symm⟩
+  · rintro ⟨rfl, rfl⟩; rfl
+
+-- non-vacuity: a 1-of-1 script whose `m` is pushed with PUSHINT256 is accepted but is not what the builder writes
+example : parseMultiSig (msScript (countEnc 5 1) [List.replicate 33 7] (canonCount 1)) = some (1, [List.replicate 33 7])
+    ∧ createMultiSig 1 [List.replicate 33 7] ≠ some (msScript (countEnc 5 1) [List.replicate 33 7] (canonCount 1)) := by
+  have hk : ∀ k ∈ [List.replicate 33 (7 : UInt8)], 33 ≤ k.length ∧ k.length ≤ 255 := by
+    intro k hk; simp at hk; subst hk; simp
+  have := multisig_noncanonical_exact 1 [List.replicate 33 7] (countEnc 5 1) (canonCount 1) (by decide) (by decide) (by decide) hk
+    (mem_countEncodings_enc 5 1 (by decide) (by decide)) (canonCount_mem 1)
+  refine ⟨this.1, fun h => ?_⟩
+  have := (this.2.mp h).1
+  revert this; decide
+example : (countEncodings 16).length = 7 ∧ (countEncodings 17).length = 6 ∧ (countEncodings 128).length = 5 := by decide
+
+/-- C18 (scripts): `ParseSignatureContract` accepts exactly the images of `GetVerificationScript`
+over 33-byte strings (it does not check that the bytes are a curve point). -/
+theorem sig_script_parse_iff (s k : Bytes) : parseSigContract s = some k ↔ k.length = 33 ∧ s = sigScript k :=
+  parseSig_iff' s k
+
+/-! ## byte layouts of keys and signatures (the cryptography itself is a parameter) -/
+
+/-- C18 (public keys): for curve parameters and a `ModSqrt` satisfying `CurveLaws` (odd prime field
+below 2^256, `ModSqrt` sound and complete up to sign), every curve point with canonical
+coordinates survives `Bytes()` → `DecodeBytes` and `UncompressedBytes()` → `DecodeBytes`. -/
+theorem pubkey_decode_encode (C : CurveP) (L : CurveLaws C) (x y : Nat) (hx : x < C.P) (hy : y < C.P)
+    (hc : onCurve C x y = true) :
+    decodePub C (pkBytes (some (x, y))) = some (x, y) ∧ decodePub C (pkBytesU (some (x, y))) = some (x, y) :=
+  ⟨decodePub_pkBytes C L x y hx hy hc, decodePub_pkBytesU C L x y hx hy hc⟩
+
+/-- C18 (public keys): everything `DecodeBytes` accepts is a point on the curve with both
+coordinates below the field prime, given either as `02|03 ++ X` (33 bytes, parity of Y = the
+prefix bit) or as `04 ++ X ++ Y` (65 bytes); in particular the infinity encoding `00`, every other
+prefix, every other length, `X ≥ P`, a non-residue and an off-curve pair are all rejected. -/
+theorem pubkey_accepts_only (C : CurveP) (L : CurveSound C) (b : Bytes) (x y : Nat) (h : decodePub C b = some (x, y)) :
+    x < C.P ∧ y < C.P ∧ onCurve C x y = true ∧
+    ((∃ p rest, b = p :: rest ∧ rest.length = 32 ∧ (p = 2 ∨ p = 3) ∧ x = beVal rest ∧
+        (y % 2 = p.toNat % 2 ∨ (y = 0 ∧ p = 3 ∧ ySquared C x = 0))) ∨
+     (∃ xb yb, b = 0x04 :: (xb ++ yb) ∧ xb.length = 32 ∧ yb.length = 32 ∧ x = beVal xb ∧ y = beVal yb)) :=
+  decodePub_shape C L b x y h
+
+theorem pubkey_malformed_rejected (C : CurveP) (L : CurveSound C) (b : Bytes) :
+    (b.head? = some 0 → decodePub C b = none) ∧ (b.length ≠ 33 → b.length ≠ 65 → decodePub C b = none) ∧
+    (∀ p rest, b = p :: rest → p ≠ 2 → p ≠ 3 → p ≠ 4 → decodePub C b = none) := by
+  refine ⟨?_, ?_, ?_⟩
+  · intro h0
+    cases b with
+    | nil => rfl
+    | cons p r => simp at h0; subst h0; simp [decodePub]
+  · intro h33 h65
+    cases hd : decodePub C b with
+    | none => rfl
+    | some xy =>
+      obtain ⟨x, y⟩ := xy
+      obtain ⟨_, _, _, hs⟩ := decodePub_shape C L b x y hd
+      rcases hs with ⟨p, rest, rfl, hl, _⟩ | ⟨xb, yb, rfl, hxl, hyl, _⟩
+      · simp [hl] at h33
+      · simp [hxl, hyl] at h65
+  · intro p rest hb h2 h3 h4
+    cases hd : decodePub C b with
+    | none => rfl
+    | some xy =>
+      obtain ⟨x, y⟩ := xy
+      obtain ⟨_, _, _, hs⟩ := decodePub_shape C L b x y hd
+      rcases hs with ⟨p', rest', rfl, _, hp, _⟩ | ⟨xb, yb, rfl, _⟩
+      · injection hb with e1 e2; subst e1; rcases hp with rfl | rfl <;> contradiction
+      · injection hb with e1 e2; exact absurd e1.symm h4
+
+/-- C18 (public keys): decoding then re-encoding gives the bytes back. The one exception the code
+has — `03 ++ X` with `X³−AX+B ≡ 0`, which decodes to `(X, 0)` and re-encodes with `02` — needs a
+point of order 2, which neither supported curve has (their group orders are odd primes). -/
+theorem pubkey_encode_decode (C : CurveP) (L : CurveSound C) (b : Bytes) (x y : Nat) (h : decodePub C b = some (x, y)) :
+    (b.length = 65 ∧ pkBytesU (some (x, y)) = b) ∨
+    (b.length = 33 ∧ (pkBytes (some (x, y)) = b ∨ (y = 0 ∧ b.head? = some 3 ∧ ySquared C x = 0))) :=
+  encode_decodePub C L b x y h
+
+-- non-vacuity: y² = x³ − 3x + 1 over F₇ with square roots found by search satisfies the laws …
+def toyCurve : CurveP where
+  P := 7
+  A := 3
+  B := 1
+  sqrt := fun v => (List.range 7).find? (fun y => y * y % 7 == v % 7)
+
+theorem toyCurve_laws : CurveLaws toyCurve where
+  toCurveSound := {
+    odd := by decide
+    le256 := by decide
+    sqrt_sound := by
+      intro v y h
+      have h1 := List.find?_some h
+      have h2 := List.mem_of_find?_eq_some h
+      simp only [beq_iff_eq] at h1
+      exact ⟨by have : y < 7 := by simpa using h2
+                exact this, h1⟩ }
+  sqrt_complete := by
+    intro y hy
+    have : y = 0 ∨ y = 1 ∨ y = 2 ∨ y = 3 ∨ y = 4 ∨ y = 5 ∨ y = 6 := by
+      have : y < 7 := hy
+      omega
+    rcases this with rfl | rfl | rfl | rfl | rfl | rfl | rfl <;> exact ⟨_, rfl, by decide⟩
+
+-- … (0, 6) is a point, its compressed form has prefix 02 and decodes back; X = 7 = P is rejected
+example : onCurve toyCurve 0 6 = true ∧ (pkBytes (some (0, 6))).head? = some 2 ∧
+    decodePub toyCurve (pkBytes (some (0, 6))) = some (0, 6) :=
+  ⟨by decide, by decide, (pubkey_decode_encode toyCurve toyCurve_laws 0 6 (by decide) (by decide) (by decide)).1⟩
+example : decodePub toyCurve (2 :: beBytes 32 7) = none := by decide
+
+/-- C18 (signatures, layout): a signature is `r | s`, 32 big-endian bytes each: splitting what
+`getSignatureSlice` joins gives `(r, s)` back for all `r, s < 2^256`, and `Verify`'s split accepts
+exactly the 64-byte strings, each of which is the join of the two numbers it yields. -/
+theorem signature_layout (sig : Bytes) (r s : Nat) :
+    (r < 2 ^ 256 → s < 2 ^ 256 → sigSplit (sigJoin r s) = some (r, s)) ∧
+    (sigSplit sig = some (r, s) ↔ sig.length = 64 ∧ r < 2 ^ 256 ∧ s < 2 ^ 256 ∧ sig = sigJoin r s) ∧
+    (sig.length ≠ 64 → sigSplit sig = none) :=
+  ⟨sigSplit_join r s, sigSplit_iff sig r s, fun h => by simp [sigSplit, h]⟩
+
+example : sigSplit (sigJoin 1 (2 ^ 255)) = some (1, 2 ^ 255) :=
+  (signature_layout [] 1 (2 ^ 255)).1 (by decide) (by decide)
+
+/-- C18 (NEP-2): for primitives satisfying `Nep2Laws` (64-byte KDF output, length-preserving cipher
+with `decrypt (encrypt x k) k = x`) and a checksum function of at least 4 bytes, every 32-byte key
+and every passphrase: `NEP2Decrypt (NEP2Encrypt key pass) pass = key`. -/
+theorem nep2_decrypt_encrypt (Q : Nep2Prims) (L : Nep2Laws Q) (H : Bytes → Bytes) (hH : ∀ x, 4 ≤ (H x).length)
+    (priv pass : Bytes) (hp : priv.length = 32) :
+    nep2Decrypt Q H (nep2Encrypt Q H priv pass) pass = some priv := nep2_roundtrip Q L H hH priv pass hp
+
+/-- C18 (NEP-2, layout): everything `NEP2Decrypt` accepts is
+`Base58Check(01 42 e0 | addresshash (4) | encrypted (32))`, the key it returns is
+`decrypt(encrypted, dk[32:]) xor dk[:32]` and its address hashes to the stored address hash; any
+other length, header or flag byte, or a bad checksum is rejected. -/
+theorem nep2_accepts_only (Q : Nep2Prims) (H : Bytes → Bytes) (s pass priv : Bytes) (h : nep2Decrypt Q H s pass = some priv) :
+    ∃ ah e, ah.length = 4 ∧ e.length = 32 ∧ s = checkEncode H (nep2Payload ah e) ∧ priv.length = 32 ∧
+      checksum H (Q.addrOf priv) = ah ∧
+      priv = xorB (Q.dec e ((Q.kdf pass ah).drop 32)) ((Q.kdf pass ah).take 32) := nep2_shape Q H s pass priv h
+
+/-- C18 (NEP-2, wrong passphrase): a string made for `key` is accepted under another passphrase
+only if the key that passphrase yields has the same 4-byte address hash as `key` (that this does
+not happen is a cryptographic claim, sampled by the harness). -/
+theorem nep2_wrong_passphrase (Q : Nep2Prims) (H : Bytes → Bytes) (hH : ∀ x, 4 ≤ (H x).length)
+    (priv pass pass' priv' : Bytes) (h : nep2Decrypt Q H (nep2Encrypt Q H priv pass) pass' = some priv') :
+    checksum H (Q.addrOf priv') = checksum H (Q.addrOf priv) := nep2_other_passphrase Q H hH priv pass pass' priv' h
+
+-- non-vacuity of the laws: reversal as the "cipher"
+def toyNep2 : Nep2Prims where
+  kdf := fun _ _ => List.replicate 64 7
+  enc := fun x _ => x.reverse
+  dec := fun x _ => x.reverse
+  addrOf := id
+
+example : Nep2Laws toyNep2 where
+  kdf_len := by intro _ _; simp [toyNep2]
+  enc_len := by intro _ _; simp [toyNep2]
+  dec_len := by intro _ _; simp [toyNep2]
+  dec_enc := by intro _ _; simp [toyNep2]
 
 /-! ## signatures (abstract algebra only; the real functions are sampled by the harness) -/
 
